@@ -1,5 +1,6 @@
 import MocModel.Drv.Core
 import MocModel.Cache
+import MocModel.CacheC
 import MocModel.Spec.Cache
 open Lean Moc.Wire
 
@@ -7,6 +8,7 @@ namespace Moc.Drv.CacheD
 
 structure St where
   c : Cache := { cap := 0 }
+  cc : CCache := CCache.init 0   -- the concrete model (tree and index as maintained state)
   shown : List Event := []      -- the implementation's last match-everything listing
   started : Bool := false
 
@@ -21,6 +23,46 @@ def resEvents : Res (List Event) → Option (List Event)
 def inClaimF (f : Filter) : Bool := decide f.WF
 def inClaimE (e : Event) : Bool := e.tags.all (· != [])
 
+def sameSet (a b : List String) : Bool := a.length == b.length && a.all b.contains && b.all a.contains
+
+def idxKeyOf (w : String) (v : List String) : Option IdxKey :=
+  match w, v with
+  | "id", [x] => some (.id x)
+  | "author", [x] => some (.author x)
+  | "kind", [x] => x.toInt?.map IdxKey.kind
+  | "tag", [n, x] => some (.tag n x)
+  | _, _ => none
+
+/-- differences between the concrete model's tables and the implementation's (hook `VerifState`) -/
+def stateDiffs (cc : CCache) (st : Json) : Except String (List String) := do
+  let strs := asList asStr
+  let evs ← asList strs (← fld st "evs")
+  let tree ← asList strs (← fld st "tree")
+  let index ← asList (fun j => do pure ((← strF j "w"), (← strs (← fld j "v")), (← strs (← fld j "ids")))) (← fld st "index")
+  let deleted ← asList (fun j => do pure ((← strF j "key"), (← strF j "pubkey"), (← strs (← fld j "ids")))) (← fld st "deleted")
+  let mut d : List String := []
+  -- c.evs
+  let mEvs := cc.a.evs.map fun e => s!"{eventKey e}|{e.id}"
+  let iEvs := evs.map fun p => s!"{p.getD 0 ""}|{p.getD 1 ""}"
+  if !sameSet mEvs iEvs then d := d ++ [s!"evs map: impl={iEvs} model={mEvs}"]
+  -- evsCreatedAt, in iteration order
+  let mTree := cc.tree.map fun e => [toString e.createdAt, e.id, e.id]
+  if mTree != tree then d := d ++ [s!"tree: impl={tree} model={mTree}"]
+  -- evsIndex.idx
+  if index.length != cc.idx.length then d := d ++ [s!"index: impl has {index.length} keys, model {cc.idx.length}"]
+  for (w, v, ids) in index do
+    match idxKeyOf w v with
+    | none => d := d ++ [s!"index: unknown key {w} {v}"]
+    | some k =>
+      let m := (ixGet cc.idx k).map (·.id)
+      if !sameSet m ids then d := d ++ [s!"index[{w} {v}]: impl={ids} model={m}"]
+  -- deleted
+  let mDel := cc.a.deleted.map fun t => s!"{t.1}|{t.2.1}|{t.2.2}"
+  let iDel := deleted.flatMap fun (k, p, ids) => ids.map fun i => s!"{k}|{p}|{i}"
+  if !sameSet mDel iDel then d := d ++ [s!"deleted registry: impl={iDel} model={mDel}"]
+  if deleted.any (fun (_, _, ids) => ids.isEmpty) then d := d ++ ["deleted registry: impl keeps an empty set"]
+  pure d
+
 def monOf (cls : String) : String :=
   if cls.startsWith "isolation" || cls == "not-deleted" || cls == "flag-suppressed" then "deletion" else "retention"
 
@@ -29,7 +71,7 @@ def step (st : St) (j : Json) : Except String (St × Drv.Out) := do
   match op with
   | "reset" =>
     let cap ← intF j "cap"
-    pure ({ c := { cap := cap }, shown := [], started := true }, { nontrivial := false, tags := #[s!"cap.{cap}"] })
+    pure ({ c := { cap := cap }, cc := CCache.init cap, shown := [], started := true }, { nontrivial := false, tags := #[s!"cap.{cap}"] })
   | "add" =>
     let e ← event (← fld j "e")
     let out ← fld j "out"
@@ -44,6 +86,14 @@ def step (st : St) (j : Json) : Except String (St × Drv.Out) := do
     if mAdded != added then o := o.diff s!"Add({short e.id}) flag: impl={added} model={mAdded}"
     if c'.len != len then o := o.diff s!"Len: impl={len} model={c'.len}"
     if mAll != some all then o := o.diff s!"listing after Add({short e.id}): impl={evIds all} model={(mAll.map evIds)}"
+    -- the concrete model: same flag, and the same tables as the implementation's own
+    let (cc', cAdded) := st.cc.add e
+    if cAdded != added then o := o.diff s!"Add({short e.id}) flag: impl={added} concrete model={cAdded}"
+    match fldD out "state" with
+    | Json.null => pure ()
+    | sj =>
+      o := o.tag "state.compared"
+      for m in (← stateDiffs cc' sj) do o := o.diff s!"internal tables after Add({short e.id}): {m}"
     if (all.length : Int) == st.c.cap then o := o.tag "full"
     -- property monitors on the implementation's own successive listings
     if inClaimE e then
@@ -52,7 +102,7 @@ def step (st : St) (j : Json) : Except String (St × Drv.Out) := do
         o := o.mon (monOf v.cls) v.cls s!"Add({(eventJ e).compress}) -> {added}; before={evIds st.shown} after={evIds all}: {v.msg}"
       if len != all.length then
         o := o.mon "retention" "len" s!"Len()={len} but the listing has {all.length} events"
-    pure ({ st with c := c', shown := all }, o)
+    pure ({ st with c := c', cc := cc', shown := all }, o)
   | "find" =>
     let fs ← asList filter (← fld j "fs")
     let out ← fld j "out"
@@ -67,6 +117,11 @@ def step (st : St) (j : Json) : Except String (St × Drv.Out) := do
     | .panic, false => o := o.diff "Find: model panics, impl does not"
     | .ok _, true => o := o.diff "Find: impl panics, model does not"
     | .ok r, false => if r != res then o := o.diff s!"Find({(jList filterJ fs).compress}): impl={evIds res} model={evIds r}"
+    match st.cc.find id fs, pan with
+    | .ok r, false => if r != res then o := o.diff s!"Find({(jList filterJ fs).compress}): impl={evIds res} concrete model={evIds r}"
+    | .panic, false => o := o.diff "Find: concrete model panics, impl does not"
+    | .ok _, true => o := o.diff "Find: impl panics, concrete model does not"
+    | .panic, true => pure ()
     if fs.all inClaimF && st.shown.all inClaimE then
       if pan then o := o.mon "query" "panic" s!"Find panicked on {(jList filterJ fs).compress}"
       else
